@@ -1,6 +1,6 @@
 SPECIFICATION Spec
 CONSTANTS
   Variant = "le_as_be"
-  HdrLen = 2
-INVARIANTS TablesWellFormed NonInterferenceAbstract NonInterferenceTables RangeRule
+  HdrLen = 1
+INVARIANTS NonInterferenceAbstract
 CHECK_DEADLOCK FALSE
